@@ -433,6 +433,47 @@ def connect (st : Transit) : Except Err (List Dial) := do
   if !st.listener && direct.isEmpty && relays.isEmpty then throw .transitError
   pure (direct ++ relays)
 
+/-! ### what becomes of the attempts: `_start_connector` and the race in `connect()`
+
+`_start_connector(ep, description)` returns `ep.connect(f)` with exactly one callback chained,
+`p.startNegotiation()` (pinned in `expectedGuards`): the contender's Deferred succeeds with the
+negotiated `Connection` and *fails whenever the attempt fails* — at TCP level (refused, no route,
+timeout, DNS) or in the handshake.  `connect()` is the race of those contenders (plus the listener):
+it fires with the first success, fails once every contender has failed, and is pending otherwise. -/
+
+/-- what happens to one started connection attempt -/
+inductive Fate where
+  | pending          -- no answer yet
+  | tcpFail          -- `clientConnectionFailed`: refused / unreachable / timed out / lookup failed
+  | handshakeFail    -- connected, then `BadHandshake` or connection lost before "go"
+  | connected        -- connected and negotiated
+  deriving DecidableEq, Repr
+
+inductive Outcome where
+  | pending
+  | failed
+  | connection (i : Nat)     -- `connect()` fired with the Connection of attempt `i`
+  deriving DecidableEq, Repr
+
+/-- the contender made by `_start_connector` for an attempt: `some true` = fired with a Connection,
+    `some false` = failed, `none` = still pending.  A failed attempt is a failed contender. -/
+def contender : Fate → Option Bool
+  | .pending => none
+  | .tcpFail => some false
+  | .handshakeFail => some false
+  | .connected => some true
+
+def firstWinner : Nat → List Fate → Option Nat
+  | _, [] => none
+  | i, f :: fs => if contender f = some true then some i else firstWinner (i + 1) fs
+
+/-- `connect()` once the attempts (in the order they were started) have met these fates;
+    `listener` = an inbound-connection contender that is still waiting -/
+def raceOutcome (listener : Bool) (fates : List Fate) : Outcome :=
+  match firstWinner 0 fates with
+  | some i => .connection i
+  | none => if listener || fates.any (fun f => (contender f).isNone) then .pending else .failed
+
 /-- the relay this side was configured with (`parse_hint_argv("tcp:relay.example:4001")`) -/
 def ownRelay : List Tcp :=
   [{ kind := .direct, hostname := .str "relay.example", port := .int 4001, priority := .float (.fin 0 1) }]
@@ -662,6 +703,10 @@ def expectedGuards : List (String × List String) := [
     "if not contenders",
     "raise TransitError('No contenders for connection')",
     "return self._not_forever(2 * TIMEOUT, winner)"]),
+  ("Common._start_connector", [
+    "if is_relay",
+    "chain d.addCallback(lambda p: p.startNegotiation())",
+    "return d"]),
   ("Manager.use_hints", [
     "call filter(lambda h: h, [parse_hint(hs) for hs in hint_message['hints']])",
     "for hs in hint_message['hints']",
@@ -677,7 +722,14 @@ def expectedGuards : List (String × List String) := [
     "for r in relays",
     "for h in r.hints"]),
   ("Connector._schedule_connection", [
-    ])]
+    "chain d.addErrback(lambda f: f.trap(ConnectingCancelledError, ConnectionRefusedError, CancelledError, ConnectError))",
+    "chain d.addErrback(lambda f: f.trap(DNSLookupError))",
+    "chain d.addErrback(log.err)"]),
+  ("Connector._connect", [
+    "if is_relay",
+    "chain p.when_disconnected().addCallback(self._pending_connections.discard)",
+    "chain d.addCallback(_connected)",
+    "return d"])]
 
 /-! ## line protocol
 
@@ -691,6 +743,7 @@ tnew <tor> <listener> <ownrelay>  -> ok
 tadd <J>                          -> [Error ]direct=[…] relays={…}
 tconnect                          -> direct=[…] relays=[k:{…};…] | <Error>
 tconnectU                         -> targets={…} | <Error>             (order-free; used when a priority is nan)
+trace <listener> <fate>…          -> pending | failed | connection <i>   (fates: p t h c, in the order the attempts started)
 taddU <J> / dmsgU <J>             -> order-free variants of tadd / dmsg
 dnew <tor> <nolisten> <ownrelay> <manager state> <connector state> -> sched=[…]
 dmsg <J>                          -> [Error ]<manager state> <connector state> sched=[…new…]
@@ -875,6 +928,13 @@ def step (s : DrvSt) (line : String) : DrvSt × String :=
       match addConnectionHints s.t j with
       | (t', none) => ({ s with t := t' }, "ok")
       | (t', some e) => ({ s with t := t' }, e.name)
+  | "trace" :: listener :: fs =>
+    match fs.mapM (fun t => if t == "p" then some Fate.pending else if t == "t" then some Fate.tcpFail
+        else if t == "h" then some Fate.handshakeFail else if t == "c" then some Fate.connected else none) with
+    | some fates =>
+      (s, match raceOutcome (flag listener) fates with
+          | .pending => "pending" | .failed => "failed" | .connection i => s!"connection {i}")
+    | none => (s, "bad-op")
   | ["tconnect"] => (s, showExcept showDials (connect s.t))
   | ["tconnectU"] => (s, showExcept (fun ds => "targets=" ++ showSet (ds.map fun d => showTarget d.host d.port)) (connect s.t))
   | ["dnew", tor, nolisten, own, mgr, con] =>
